@@ -79,17 +79,11 @@ def run_check(pid, files, tier="quick", seed=0, quiet=False, out=sys.stdout, wri
         ctx.tier = tier
         ctx.seed = seed
         reg[pid](ctx, rep)
-        # the verdict is about the program Python runs only if the consulted modules stay inside the modelled language
+        # the verdict is about the program Python runs only if the package stays inside the modelled language; the scope is the whole
+        # package for every property, because the constructs in question act at a distance (a class or library patched in one module
+        # changes what every other module's calls mean)
         from . import integrity
-        consulted = set()
-        for q in list(getattr(ctx.A, "_fp", {})):
-            f = ctx.p.functions.get(q)
-            if f is not None:
-                consulted.add(f.module.name)
-        for k in list(getattr(ctx.folder, "_cache", {}) or {}):
-            if isinstance(k, tuple) and len(k) == 3 and k[0] == "mod":
-                consulted.add(k[1])
-        integrity.check(ctx, rep, pid, consulted)
+        integrity.check(ctx, rep, pid)
         fns = ctx.p.all_functions()
         rep.stat("package_functions", len(fns))
         if ctx._G is not None:
